@@ -63,7 +63,11 @@ pub fn dump_logs(args: &[String], seed: u64) -> i32 {
     };
     // an evenly spread sample of the plan, so every block kind is represented
     let stride = (specs.len() / count.max(1)).max(1);
-    let sample: Vec<_> = specs.iter().step_by(stride).take(count).cloned().collect();
+    let rec_states = args.iter().any(|a| a == "--rec-states");
+    let mut sample: Vec<_> = specs.iter().step_by(stride).take(count).cloned().collect();
+    for s in sample.iter_mut() {
+        s.rec_states = rec_states;
+    }
     let recs = run_collect(&sample, &cfg);
     let mut lines: Vec<(u64, String)> = vec![];
     let dump = |r: &Record| -> String {
@@ -85,5 +89,102 @@ pub fn dump_logs(args: &[String], seed: u64) -> i32 {
         writeln!(f, "{}", l).unwrap();
     }
     println!("dumped {} logs ({} census + {} exploration) to {}", lines.len(), census_recs.len(), recs.len(), outfile);
+    0
+}
+
+/// Informational: per input, the set of distinct outputs of `simplify` over
+/// `reps` fresh threads. Printed as "input_index fp fp fp ...".
+pub fn fidelity(n: usize, reps: usize, seed: u64) {
+    use crate::dsx::Sym;
+    use crate::entropy::on_fresh_thread;
+    use crate::prng::{fnv64, hmix, SplitMix64};
+    use rust_dsymbols::delaney3d::pseudo_toroidal_cover;
+    use rust_dsymbols::simplify::simplify;
+    let corpus = Corpus::load(4).expect("corpus");
+    println!("real_entropy={}", cfg!(feature = "real_entropy"));
+    for (i, e) in corpus.k0.iter().take(n).enumerate() {
+        let s = Sym::parse(&e.text).unwrap();
+        let cov = match pseudo_toroidal_cover(&s.to_partial()) {
+            Some(c) => c,
+            None => continue,
+        };
+        let mut outs = std::collections::BTreeSet::new();
+        for r in 0..reps {
+            let mut rng = SplitMix64::new(hmix(&[seed, 0xF1DE, i as u64, r as u64]));
+            let c = cov.clone();
+            let out = on_fresh_thread(rng.next_u64(), rng.next_u64(), move || simplify(&c).map(|y| y.to_string()));
+            let fp = match out.result {
+                Ok(Some(t)) => fnv64(t.as_bytes()),
+                Ok(None) => 0,
+                Err(_) => 1,
+            };
+            outs.insert(fp);
+        }
+        println!("{} {}", i, outs.iter().map(|f| format!("{:016x}", f)).collect::<Vec<_>>().join(" "));
+    }
+}
+
+/// args: <file> <out_interesting> [min_size] [op] [max_size] [budget_s]
+pub fn scan(args: &[String]) -> i32 {
+    use crate::spec::{Expect, Op, Repr, Spec};
+    use std::collections::BTreeMap;
+    let text = std::fs::read_to_string(&args[0]).expect("read");
+    let min_size: usize = args.get(2).and_then(|s| s.parse().ok()).unwrap_or(0);
+    let op = args.get(3).map(|s| Op::parse(s).expect("op")).unwrap_or(Op::IsEuclidean);
+    let max_size: usize = args.get(4).and_then(|s| s.parse().ok()).unwrap_or(usize::MAX);
+    let budget: u64 = args.get(5).and_then(|s| s.parse().ok()).unwrap_or(300);
+    let lines: Vec<&str> = text
+        .lines()
+        .filter(|l| !l.starts_with('#') && !l.trim().is_empty())
+        .filter(|l| crate::dsx::Sym::parse(l.split('\t').next().unwrap()).map(|s| s.n >= min_size && s.n <= max_size).unwrap_or(false))
+        .collect();
+    let specs: Vec<Spec> = lines
+        .iter()
+        .enumerate()
+        .map(|(i, l)| Spec {
+            idx: i as u64,
+            prop: "C17".into(),
+            group: format!("S{}", i),
+            parent: None,
+            known_euclidean: false,
+            base: l.split('\t').next().unwrap().to_string(),
+            xf: vec![],
+            repr: Repr::PartialDSym,
+            op,
+            cxf: vec![],
+            expect: Expect::Unknown,
+            hist: 0,
+            k0: 0,
+            k1: 0,
+            steer: vec![],
+            steer_min_beyond: false,
+            rec_states: false,
+            deep: false,
+        })
+        .collect();
+    let cfg = PoolConfig { workers: 16, chunk: if op == Op::IsEuclidean { 64 } else { 1 }, run_budget: Duration::from_secs(budget), deadline: None, thorough: false };
+    let recs = run_collect(&specs, &cfg);
+    let mut hist: BTreeMap<String, u64> = BTreeMap::new();
+    let mut probes: BTreeMap<String, u64> = BTreeMap::new();
+    let mut out = String::new();
+    for (i, r) in recs.iter().enumerate() {
+        if let Some(r) = r {
+            let key = if r.status != "ran" { format!("excluded: {}", r.excluded_reason) } else { format!("{}: {}", r.outcome, r.detail) };
+            *hist.entry(key.clone()).or_insert(0) += 1;
+            for (k, v) in &r.probes {
+                *probes.entry(k.clone()).or_insert(0) += v;
+            }
+            if r.status == "ran" && !(r.outcome == "no" && r.detail == crate::plan::REASON_INVARIANTS) {
+                out.push_str(&format!("{}\t{}: {} in={} out={}\n", specs[i].base, r.outcome, r.detail, r.in_size, r.out_size));
+            }
+        }
+    }
+    std::fs::write(&args[1], out).expect("write");
+    for (k, v) in hist {
+        println!("{:8} {}", v, k);
+    }
+    for (k, v) in probes {
+        println!("probe {:8} {}", v, k);
+    }
     0
 }
